@@ -128,6 +128,10 @@ func (n rnode) build(path string, depth, mmode int, beh ...int) any {
 		if bm == 7 || bm == 8 {
 			c20FreeBuilderHandles(vals, bm-7)
 		}
+		if bm == 9 {
+			// every stack's own validity closure says no, and an error is on record: neither is about nesting
+			s.SetValidityPolicy(func(...any) error { return errCat }).SetErr(errCat)
+		}
 		if (bm == 3 || bm == 4) && len(n.Kids) > 0 {
 			// one call that a full stack refuses (or that addresses nothing): the content stays as it
 			// is. One call only, so that Reveal is the first to meet whatever the call left behind.
@@ -159,6 +163,9 @@ func (n rnode) build(path string, depth, mmode int, beh ...int) any {
 		c := condHistory("kw"+path, stackage.Ge, ex, fillMode(path+n.String()))
 		if bm == 7 {
 			c20FreeBuilderHandles([]any{ex}, 0)
+		}
+		if bm == 9 {
+			c.SetValidityPolicy(func(...any) error { return errCat })
 		}
 		if n.Paren {
 			c.SetParen(true)
@@ -987,11 +994,11 @@ func init() {
 		if !c.Quick() {
 			modes = []int{0, 1, 2, 3, 4}
 		}
-		c.Rule = "every tree of the bounded family (kinds AND/OR/NOT/LIST, parenthetical flags, children: leaf, nil, empty Stack, Stack, Condition(leaf), Condition(Stack), parenthetical Conditions; all single-child chains up to length 4/5 with several tails; aliases in the thorough tier) typed nil pointers to Stack / Condition / alias as leaves; x mutex placement (none, all, root only, all but root, alternating) x behaviour mode (none, forward indices, negative indices, capacity reached with refused Insert/Push/Replace/Remove/Swap made beforehand, all); oracle: identical depth-first leaf/Condition sequence, result reachable from the input by unwrapping redexes only (receiver never unwrapped), equal normal forms, no panic, no re-acquisition of a held mutex (lock hooks), no mutex left held; non-trivial = distinct cases in which Reveal changed the structure"
+		c.Rule = "every tree of the bounded family (kinds AND/OR/NOT/LIST, parenthetical flags, children: leaf, nil, empty Stack, Stack, Condition(leaf), Condition(Stack), parenthetical Conditions; all single-child chains up to length 4/5 with several tails; aliases in the thorough tier) typed nil pointers to Stack / Condition / alias as leaves; x mutex placement (none, all, root only, all but root, alternating) x behaviour mode (none, forward indices, negative indices, capacity reached with refused Insert/Push/Replace/Remove/Swap made beforehand, all, locking switched on late, builder handles freed, every node's validity closure rejecting with an error on record); oracle: identical depth-first leaf/Condition sequence, result reachable from the input by unwrapping redexes only (receiver never unwrapped), equal normal forms, no panic, no re-acquisition of a held mutex (lock hooks), no mutex left held; non-trivial = distinct cases in which Reveal changed the structure"
 		c.Bound["trees"] = len(trees)
-		behs := []int{0, 1, 3, 5, 6, 7, 8}
+		behs := []int{0, 1, 3, 5, 6, 7, 8, 9}
 		if !c.Quick() {
-			behs = []int{0, 1, 2, 3, 4, 5, 6, 7, 8}
+			behs = []int{0, 1, 2, 3, 4, 5, 6, 7, 8, 9}
 		}
 		c.Bound["mutex_modes"] = len(modes)
 		c.Bound["behaviour_modes"] = len(behs)
